@@ -112,6 +112,11 @@ def base_ns(draw=None, probes=0, hooks=False):
             # callables that grow / shrink a mapping of the namespace stack
             mua=dict(t='mutator', id='a', mode='add'),
             mud=dict(t='mutator', id='d', mode='del'),
+            # mappings whose truth value changes while they are pushed
+            mf=dict(t='dict', items={}),
+            me=dict(t='dict', items=dict(va='⟦ME.va⟧', xm='⟦ME.xm⟧')),
+            muf=dict(t='mutator', id='f', mode='add', on='mf'),
+            mue=dict(t='mutator', id='e', mode='empty', on='me'),
             spare1=1, spare2=2, spare3=3)
     for i in range(probes):
         ns['p%d' % i] = dict(t='probe', id=i)
@@ -399,6 +404,23 @@ def node_of(cfg, k, depth, scope):
             st.builds(lambda b: dict(k='with', ref=dict(r='name', n='hm'),
                                      mapping=True, only=False, body=b),
                       inner),
+            st.builds(lambda b, o: dict(
+                k='with', ref=dict(r='name', n='mf'), mapping=True,
+                only=o, body=[vn('muf')] + b), inner, st.booleans()),
+            st.builds(lambda b: dict(
+                k='with', ref=dict(r='name', n='me'), mapping=True,
+                only=False, body=b + [vn('mue')] + b), inner),
+            st.builds(lambda b: dict(
+                k='in', ref=dict(r='name', n='hl'), opts=[['mapping', None]],
+                body=[vn('muf'), vn('mue')] + b, **{'else': None}), inner),
+            # explicit calls of a sub-template on the current namespace
+            st.sampled_from(['ta((oa, ho), _)', 'ta((), _)', 'ta(oa, _)',
+                             'ta((oa,), _)', 'ta(None, _, va=1)',
+                             'tx((oa, ho, oa), _)', 'tr((ho, oa), _)',
+                             'ta(ho, _.namespace(va=2)[0])'[:0] +
+                             'ta((ho, oa), _, vb=2)']).map(
+                lambda e: dict(k='var', ref=dict(r='expr', e=E('raw', s=e)),
+                               opts=[])),
             st.builds(lambda b, o: dict(k='in', ref=dict(r='name', n='hs'),
                                         opts=o, body=b, **{'else': None}),
                       inner, st.sampled_from([
